@@ -330,6 +330,38 @@ func Decompress(kind string, b []byte, tools map[string]string) ([]byte, error) 
 	return nil, fmt.Errorf("unknown compression %q", kind)
 }
 
+// ZstdWindow returns the window size the first frame of a zstd stream declares (RFC 8878 3.1.1.1): decoders refuse
+// frames whose window exceeds their limit (libzstd: 128 MiB unless told otherwise - dpkg, pacman and rpm do not).
+func ZstdWindow(b []byte) (uint64, bool) {
+	if len(b) < 6 || !bytes.Equal(b[:4], []byte{0x28, 0xb5, 0x2f, 0xfd}) {
+		return 0, false
+	}
+	fhd := b[4]
+	single := fhd&0x20 != 0
+	if !single {
+		wd := b[5]
+		exp, mant := uint64(wd>>3), uint64(wd&7)
+		base := uint64(1) << (10 + exp)
+		return base + base/8*mant, true
+	}
+	// single segment: the window is the frame content size
+	fcsFlag := fhd >> 6
+	didFlag := fhd & 3
+	off := 5 + []int{0, 1, 2, 4}[didFlag]
+	n := []int{1, 2, 4, 8}[fcsFlag]
+	if len(b) < off+n {
+		return 0, false
+	}
+	var v uint64
+	for i := n - 1; i >= 0; i-- {
+		v = v<<8 | uint64(b[off+i])
+	}
+	if n == 2 {
+		v += 256
+	}
+	return v, true
+}
+
 // ErrNoDecoder means the image has no independent decoder for the stream.
 var ErrNoDecoder = errors.New("no decoder available")
 
